@@ -63,12 +63,21 @@ def run(rep, tier, rng):
     cases, meta = [], []
     codes = shapes.ALL_CODES if tier == "thorough" else [shapes.ALL_CODES[i] for i in (0, 4, 7, 9, 12)]
     variants = [(code, "mixed") for code in codes] + [(code, "nom") for code in shapes.ALL_CODES if shapes.dim_of(code) >= 3]
+    # polygons and multipatches with an empty later ring / patch (the constructors accept them)
+    variants += [(code, "emptypart") for code in shapes.POLYGON_CODES + [31]]
     for code, prof in variants:
-        a = shapes.gen_ctor(rng, code, prof, True, 1, 2)
-        b = shapes.gen_ctor(rng, code, prof, True, 3, 4)
+        if prof == "emptypart":
+            d = shapes.dim_of(code)
+            tag = lambda: rng.randint(0, 1) if code != 31 else rng.randint(0, 5)
+            ring = lambda n: [tag()] + shapes.flat_pts(shapes.gen_pts(rng, d, n, "small"))
+            a = [code, 1, 2] + ring(3) + ring(0)
+            b = [code, 1, 3] + ring(4) + ring(0) + ring(3)
+        else:
+            a = shapes.gen_ctor(rng, code, prof, True, 1, 2)
+            b = shapes.gen_ctor(rng, code, prof, True, 3, 4)
         x = shapes.gen_ctor(rng, rng.choice([t for t in shapes.ALL_CODES if t != code]), "small", True, 1, 2)
         for h in hists:
-            if prof == "nom" and (len(h) > 3 or any(ch in "mt" for ch in h)):
+            if prof in ("nom", "emptypart") and (len(h) > 3 or any(ch in "mt" for ch in h)):
                 continue                           # measured types with every measure = NO_DATA: short clean histories
             if tier != "thorough" and len(h) == L and rng.random() < 0.6:
                 continue
@@ -85,7 +94,8 @@ def run(rep, tier, rng):
     clean = [i for i, m in enumerate(meta) if not any(ch in "mt" for ch in m[0])]
     rep.cov["rule"] = ("exhaustive histories over {pair a, pair b (other size), pair with a shape of another type, pair whose row "
                        "misses the field, pair whose row has a value of the wrong type}^<=%d x %d types through the real Writer "
-                       "(and, for the 9 measured types, shapes whose every measure is NO_DATA) through "
+                       "(and, for the 9 measured types, shapes whose every measure is NO_DATA; for polygons and multipatches, shapes with "
+                       "an empty later ring / patch) through "
                        "the real dbase TableWriter/Reader and the real Reader (in-memory destinations; rows carry their call "
                        "index), plus one history of 1030 pairs; entry counts read off the three real files; reader ops {count, "
                        "iterate all, seek, iterate 1, iterate all}; histories without rejected rows are compared with the "
@@ -107,7 +117,7 @@ def run(rep, tier, rng):
         if i not in clean:
             rep.count_case((cases[i], r))
         rep.dist("len_%d" % min(len(h), 9))
-        if r in ([-4], [-2], [2]):
+        if r in ([-4], [-2], [2], [-5]):
             nfail += 1
             if nfail == 1:
                 rep.violation({"kind": "oracle", "what": "panic in the complete writer/reader", "case": cases[i][:300], "history": "".join(h)})
